@@ -883,12 +883,11 @@ def _simplify_function_call(call: HplFunctionCall) -> HplExpression:
             return HplLiteral.number(len(arg.values))
         elif isinstance(arg, HplRange):
             if is_number_literal(arg.min_value) and is_number_literal(arg.max_value):
-                n = abs(int(arg.max_value.value) - int(arg.min_value.value))
-                if not arg.exclude_max:
-                    n += 1
-                if arg.exclude_min:
-                    n -= 1
-                return HplLiteral.number(n)
+                # same integers that sum() and prod() iterate over;
+                # none if the bounds are reversed or exclude everything
+                lb = int(arg.min_value.value) + (1 if arg.exclude_min else 0)
+                ub = int(arg.max_value.value) + (0 if arg.exclude_max else 1)
+                return HplLiteral.number(max(0, ub - lb))
         elif isinstance(arg, HplLiteral) and isinstance(arg.value, str):
             return HplLiteral.number(len(arg.value))
 
